@@ -541,7 +541,13 @@ class WebSocketResponse(StreamResponse, Generic[_DecodeText]):
             assert self._close_wait is None
             self._close_wait = self._loop.create_future()
             reader.feed_data(WS_CLOSING_MESSAGE)
-            await self._close_wait
+            try:
+                await self._close_wait
+            except asyncio.CancelledError:
+                # _closed is already set: finish the job, or the session is
+                # "closed" with its transport left open for good.
+                self._set_code_close_transport(WSCloseCode.ABNORMAL_CLOSURE)
+                raise
 
         if self._closing:
             self._close_transport()
